@@ -67,3 +67,76 @@ Theorem C20_export_call_events :
   end.
 Proof. exact call_export_events. Qed.
 Print Assumptions C20_export_call_events.
+
+(* ---------------------------------------------------------------------------------------------------------------
+   Linked programs (several instances), start functions, listener subsets.                                       *)
+From Verif Require Import Wasm.Harness Rt.Linking Wasm.ListenerLink Proofs.ListenerLinkP.
+
+(* a call instruction executed in instance [ii] whose callee — the function at store address [fa], defined by ANY
+   instance or by the host — is listened appends  EBefore fa (its actual arguments) :: well-bracketed middle ++
+   [EAfter fa (the values pushed back)]  or  ... ++ [EAbort fa]  when the callee ends in a trap of any kind *)
+Theorem C20_call_instr_events :
+  forall D host listened maxdepth fu depth ii s f k fa,
+  nth_error (i_funcs (the_inst D s ii)) k = Some fa -> listened fa = true ->
+  let np := nparams D s fa in
+  let args := rev (firstn np (stack f)) in
+  match exec D host listened maxdepth (S (S fu)) depth ii s f [Call k] with
+  | Normal s' f' => exists mid vs, s_log s' = s_log s ++ EBefore fa args :: mid ++ [EAfter fa vs] /\ balanced D mid /\
+                                   stack f' = rev vs ++ skipn np (stack f) /\ locals f' = locals f
+  | Trap t s' => exists mid, s_log s' = s_log s ++ EBefore fa args :: mid ++ [EAbort fa] /\ balanced D mid
+  | OutOfFuel => True
+  | _ => False
+  end.
+Proof. exact call_instr_events. Qed.
+Print Assumptions C20_call_instr_events.
+
+(* listener sets are independent: what a listener set L2 sees is what any larger set L1 sees, restricted to L2
+   (L2 = no listener: transparency; L1 = every function: the projection of the complete call tree), the two runs
+   proceeding in lock step with equal outcomes, values, memories, globals and tables *)
+Theorem C20_listener_subset_projection :
+  forall D host L1 L2 maxdepth fuel depth ii s1 s2 f is,
+  (forall fa, L2 fa = true -> L1 fa = true) -> projected D L2 s1 s2 ->
+  out_rel D D eq (projected D L2) (exec D host L1 maxdepth fuel depth ii s1 f is)
+                                  (exec D host L2 maxdepth fuel depth ii s2 f is).
+Proof. exact listener_subset_projection. Qed.
+Print Assumptions C20_listener_subset_projection.
+
+(* instantiation (Rt/Linking.v: resolve, allocate, element and data segments, start function) logs nothing but what
+   its start function logs: the resulting store is the one the start call leaves *)
+Theorem C20_instantiation_logs_start_only :
+  forall starter L st m,
+  match prepared L st m with
+  | Some (st1, i, s3, di) =>
+      match md_start m with
+      | Some f => if 0 <=? di then s_log (ls (fst (instantiate starter L st m))) = s_log (ls st)
+                  else ls (fst (instantiate starter L st m)) = fst (starter s3 (nth f (i_funcs i) O)) /\ s_log s3 = s_log (ls st) /\
+                       snd (instantiate starter L st m) =
+                         (let c := snd (starter s3 (nth f (i_funcs i) O)) in if c =? 0 then 0 else if c =? 1 then E_START else E_FUEL)
+      | None => s_log (ls (fst (instantiate starter L st m))) = s_log (ls st)
+      end
+  | None => s_log (ls (fst (instantiate starter L st m))) = s_log (ls st)
+  end.
+Proof. exact instantiate_log. Qed.
+Print Assumptions C20_instantiation_logs_start_only.
+
+(* the events of a start function are bracketed like any call: a listened start function at store address fa makes a
+   successful instantiation append  EBefore fa [] :: well-bracketed middle ++ [EAfter fa results]  and a failing one
+   (trap, host panic, exit at any depth, in any module)  EBefore fa [] :: middle ++ [EAbort fa] *)
+Theorem C20_start_function_events :
+  forall host listened L st m st1 i s3 di f ci tp tr nl body,
+  prepared L st m = Some (st1, i, s3, di) -> di < 0 -> md_start m = Some f ->
+  nth_error (s_funcs s3) (nth f (i_funcs i) O) = Some (FWasm ci tp tr nl body) -> listened (nth f (i_funcs i) O) = true ->
+  let fa := nth f (i_funcs i) O in
+  let r := instantiate (lk_start host listened) L st m in
+  (snd r = 0 -> exists mid ws, s_log (ls (fst r)) = s_log (ls st) ++ EBefore fa [] :: mid ++ [EAfter fa ws] /\ balanced Spec mid) /\
+  (snd r = E_START -> exists mid, s_log (ls (fst r)) = s_log (ls st) ++ EBefore fa [] :: mid ++ [EAbort fa] /\ balanced Spec mid).
+Proof. exact start_function_events. Qed.
+Print Assumptions C20_start_function_events.
+
+(* every history of instantiations (with start sections), post-instantiation start functions (_start,
+   WithStartFunctions) and export calls on a store with a host module, for every listener set and every host behaviour
+   (return, panic, exit, re-entry): the complete event log is well bracketed *)
+Theorem C20_history_bracketed :
+  forall host listened hs acts, balanced Spec (s_log (ls (fst (lrun_prog host listened hs acts)))).
+Proof. exact history_bracketed. Qed.
+Print Assumptions C20_history_bracketed.
